@@ -478,13 +478,6 @@ my_strlcpy(char *dest, const char * src, size_t maxlen)
 	return QB_MIN(rc, maxlen-1);
 }
 
-static size_t
-my_strlcat(char *dest, const char * src, size_t maxlen)
-{
-	size_t rc = strlcat(dest, src, maxlen);
-	return QB_MIN(rc, maxlen-1);
-}
-
 size_t
 qb_vsnprintf_serialize(char *serialize, size_t max_len,
 		       const char *fmt, va_list ap)
@@ -724,8 +717,20 @@ reprocess:
 
 #define MINI_FORMAT_STR_LEN 20
 
+/* room left in the serialized record for an argument of the given size */
+#define DATA_AVAIL(size) ((size_t)data_pos + (size) <= buf_len)
+
+/*
+ * Decode a serialized record of at most buf_len bytes into string[str_len]
+ * (str_len >= 1).  Nothing outside buf[0..buf_len) is read and nothing outside
+ * string[0..str_len) is written, whatever the record contains; output that does
+ * not fit is truncated.
+ *
+ * @return the number of bytes stored in string, including the terminating NUL.
+ */
 size_t
-qb_vsnprintf_deserialize(char *string, size_t str_len, const char *buf)
+qb_vsnprintf_deserialize_n(char *string, size_t str_len, const char *buf,
+			   size_t buf_len)
 {
 	char *p;
 	char *format;
@@ -733,24 +738,43 @@ qb_vsnprintf_deserialize(char *string, size_t str_len, const char *buf)
 	int fmt_pos;
 
 	uint32_t location = 0;
-	uint32_t data_pos = strlen(buf) + 1;
+	uint32_t data_pos;
 	int type_long = QB_FALSE;
 	int type_longlong = QB_FALSE;
 	int len;
+	size_t lit_len;
+	size_t arg_len;
 
 	string[0] = '\0';
+	lit_len = strnlen(buf, buf_len);
+	if (lit_len == buf_len) {
+		/* no NUL-terminated format inside the record */
+		return 1;
+	}
+	data_pos = lit_len + 1;
 	format = (char *)buf;
 	for (;;) {
+		if (location >= str_len) {
+			/* the output was truncated */
+			string[str_len - 1] = '\0';
+			return str_len;
+		}
 		type_long = QB_FALSE;
 		type_longlong = QB_FALSE;
 		p = strchrnul((const char *)format, '%');
 		if (*p == '\0') {
-			return my_strlcat(string, format, str_len) + 1;
+			return location + my_strlcpy(&string[location], format,
+						     str_len - location) + 1;
 		}
 		/* copy from current to the next % */
-		len = p - format;
-		memcpy(&string[location], format, len);
-		location += len;
+		lit_len = p - format;
+		if (lit_len >= str_len - location) {
+			memcpy(&string[location], format, str_len - location - 1);
+			string[str_len - 1] = '\0';
+			return str_len;
+		}
+		memcpy(&string[location], format, lit_len);
+		location += lit_len;
 		format = p;
 
 		/* start building up the format for snprintf */
@@ -758,6 +782,10 @@ qb_vsnprintf_deserialize(char *string, size_t str_len, const char *buf)
 		fmt[fmt_pos++] = *format;
 		format++;
 reprocess:
+		if (fmt_pos + 2 > MINI_FORMAT_STR_LEN) {
+			/* too long to be rebuilt in fmt[] */
+			goto stop;
+		}
 		switch (format[0]) {
 		case '#': /* alternate form conversion, ignore */
 		case '-': /* left adjust, ignore */
@@ -782,6 +810,9 @@ reprocess:
 
 		case '*': {
 			int arg_int;
+			if (!DATA_AVAIL(sizeof(int))) {
+				goto stop;
+			}
 			memcpy(&arg_int, &buf[data_pos], sizeof(int));
 			data_pos += sizeof(int);
 			fmt_pos += snprintf(&fmt[fmt_pos],
@@ -837,6 +868,9 @@ reprocess:
 			if (type_long) {
 				long int arg_int;
 
+				if (!DATA_AVAIL(sizeof(long int))) {
+					goto stop;
+				}
 				fmt[fmt_pos++] = *format;
 				fmt[fmt_pos++] = '\0';
 				memcpy(&arg_int, &buf[data_pos], sizeof(long int));
@@ -849,6 +883,9 @@ reprocess:
 			} else if (type_longlong) {
 				long long int arg_int;
 
+				if (!DATA_AVAIL(sizeof(long long int))) {
+					goto stop;
+				}
 				fmt[fmt_pos++] = *format;
 				fmt[fmt_pos++] = '\0';
 				memcpy(&arg_int, &buf[data_pos], sizeof(long long int));
@@ -861,6 +898,9 @@ reprocess:
 			} else {
 				int arg_int;
 
+				if (!DATA_AVAIL(sizeof(int))) {
+					goto stop;
+				}
 				fmt[fmt_pos++] = *format;
 				fmt[fmt_pos++] = '\0';
 				memcpy(&arg_int, &buf[data_pos], sizeof(int));
@@ -882,6 +922,9 @@ reprocess:
 			{
 			double arg_double;
 
+			if (!DATA_AVAIL(sizeof(double))) {
+				goto stop;
+			}
 			fmt[fmt_pos++] = *format;
 			fmt[fmt_pos++] = '\0';
 			memcpy(&arg_double, &buf[data_pos], sizeof(double));
@@ -896,6 +939,9 @@ reprocess:
 			{
 			unsigned char *arg_char;
 
+			if (!DATA_AVAIL(sizeof(unsigned char))) {
+				goto stop;
+			}
 			fmt[fmt_pos++] = *format;
 			fmt[fmt_pos++] = '\0';
 			arg_char = (unsigned char*)&buf[data_pos];
@@ -908,6 +954,14 @@ reprocess:
 			}
 		case 's':
 			{
+			if (!DATA_AVAIL(1)) {
+				goto stop;
+			}
+			arg_len = strnlen(&buf[data_pos], buf_len - data_pos);
+			if (arg_len == buf_len - data_pos) {
+				/* the string is not terminated inside the record */
+				goto stop;
+			}
 			fmt[fmt_pos++] = *format;
 			fmt[fmt_pos++] = '\0';
 			len = snprintf(&string[location],
@@ -915,13 +969,17 @@ reprocess:
 				       fmt, &buf[data_pos]);
 			location += len;
 			/* don't use len as there might be a len modifier */
-			data_pos += strlen(&buf[data_pos]) + 1;
+			data_pos += arg_len + 1;
 			format++;
 			break;
 			}
 		case 'p':
 			{
 			ptrdiff_t pt;
+
+			if (!DATA_AVAIL(sizeof(ptrdiff_t))) {
+				goto stop;
+			}
 			memcpy(&pt, &buf[data_pos],
 			       sizeof(ptrdiff_t));
 			fmt[fmt_pos++] = *format;
@@ -940,6 +998,16 @@ reprocess:
 
 		}
 	}
-	return location;
+
+stop:
+	/* keep what has been decoded so far */
+	string[location] = '\0';
+	return location + 1;
+}
+
+size_t
+qb_vsnprintf_deserialize(char *string, size_t str_len, const char *buf)
+{
+	return qb_vsnprintf_deserialize_n(string, str_len, buf, SIZE_MAX);
 }
 
